@@ -10,6 +10,7 @@ import Driver.Tmo
 import Driver.Kv
 import Driver.LockTrace
 import Driver.Zip
+import Driver.KvLin
 
 def main (args : List String) : IO UInt32 := do
   match args with
@@ -24,4 +25,5 @@ def main (args : List String) : IO UInt32 := do
   | ["kv"] => Drv.run DrvKv.comp
   | ["locktrace"] => Drv.run DrvLockTrace.comp
   | ["zip"] => Drv.run DrvZip.comp
+  | ["kvlin"] => Drv.run DrvKvLin.comp
   | _ => IO.eprintln "usage: driver <component>"; return 2
